@@ -928,6 +928,18 @@ class Model:
             Self: The instance of the model with the parameter converted to a variable.
 
         """
+        if name not in self._parameters:
+            msg = f"'{name}' not found in parameters"
+            raise KeyError(msg)
+        if stoichiometries is not None:
+            for rxn_name in stoichiometries:
+                if rxn_name not in self._reactions and not any(
+                    rxn_name in surrogate.stoichiometries
+                    for surrogate in self._surrogates.values()
+                ):
+                    msg = f"Reaction '{rxn_name}' not found in reactions or surrogates"
+                    raise KeyError(msg)
+
         value = self._parameters[name].value if initial_value is None else initial_value
         self.remove_parameter(name)
         self.add_variable(name, value)
